@@ -1,7 +1,7 @@
 From Coq Require Import List NArith ZArith Bool.
 Import ListNotations.
 Require Import MV.Common.Interleave MV.C04.F64bits MV.C04.Model MV.C04.Spec MV.C04.Exec
-               MV.C04.Proofs MV.C04.Proofs2 MV.C04.ExecProofs.
+               MV.C04.Proofs MV.C04.Proofs2 MV.C04.Proofs3 MV.C04.ExecProofs.
 Open Scope N_scope.
 Require Import MV.C04.Properties.
 
@@ -77,5 +77,12 @@ Check (C04_noop_inert : (forall F p s,
      end) /\
   (forall p1 o p2, lower (p1 ++ (RNoop, o) :: p2) = lower (p1 ++ p2))).
 Print Assumptions C04_noop_inert.
-Check (C04_total : forall F l p, ~ In OPanic (srun F p l) /\ length (srun F p l) = length l).
+Check (C04_total : forall F l p,
+  ~ In OPanic (srun F p l) /\ ~ In OHang (srun F p l) /\ length (srun F p l) = length l).
 Print Assumptions C04_total.
+Check (C04_solo_terminates : forall F s l,
+  let r := solo F (measure s l) s l in
+  step F (fst r) (snd r) = None /\
+  cas (snd r) = None /\ todo (snd r) = [] /\
+  rev (done (snd r)) = rev (done l) ++ cur l ++ todo l).
+Print Assumptions C04_solo_terminates.
